@@ -56,7 +56,7 @@ def obligations():
       @INC(%(f)s)@(&it);
       if (it.valid_) { @TYPE(%(f)s)@ b2 = it; @DEC(%(f)s)@(&b2); if (!(b2.cur_handle_.idx_ == before.cur_handle_.idx_ && b2.lap_ == before.lap_ && b2.valid_ == before.valid_)) back_ok = 0; }
     }
-    ret = it.valid_; }''' % dict(K=KMAX, H=H, f=name)
+    ret = it.valid_; }''' % dict(K=(26 if name == 'che_iter' else KMAX), H=H, f=name)
             post = ['  int total = 0; for (int x = 0; x < %d; x++) if ((unsigned long)x < %s && (%s)) total++;' % (24, trange, member),
                     A('first_valid == (total > 0)', 'a centre with nothing incident yields an immediately invalid circulator', n),
                     A('cnt == laps * total && ret == 0', 'visits its incident set exactly max_laps times, then becomes invalid', n),
@@ -64,13 +64,13 @@ def obligations():
                     A('g_k < 0 || g_j < 0 || g_k >= g_j || g_j >= total || g_j >= cnt || seq[g_k] != seq[g_j]', 'no duplicates within a lap', n),
                     A('g_k < 0 || g_k + total >= cnt || total == 0 || seq[g_k] == seq[g_k + total]', 'every lap reports the same sequence', n),
                     A('back_ok', 'stepping backward undoes stepping forward (while the circulator stays valid)', n),
-                    A('same_state(&o, &m)', 'traversal leaves the whole mesh state unchanged (write frame: C20)', n)]
+                    A('same_state(&o, &m) && TopologyKernel__seq(&o, &m)', 'traversal leaves the whole mesh state unchanged - known components by content, every other field of the kernel object by a generated comparison (write frame: C20)', n)]
             if ordered:
                 post.append(A('g_k < 0 || g_k >= cnt || seq[g_k] == (%s)' % ordered.replace('%%', '%').replace('(unsigned long)k', '(unsigned long)g_k'), 'reports the definition order', n))
             mh = MeshHarness(args=args, call=call, post='\n'.join(post), op='none', pre=pre, snap='  witness(&o, c, laps, 0, 0);\n  COVER(1, "reachable");')
             qf = ['C05'] if sh == shapes[0] else []
             obs.append(Ob(id='C05.circ.' + n, props=['C05', 'C20', 'C01'], quick_for=qf, tu='kernel', tier='B', roots=ROOTS_BUILD, harness=mh,
-                          includes=['wf.h', 'view.h', 'add_spec.h', 'query_spec.h', 'circ_spec.h', 'shapes.h'], copies=[TK], defines=dict(DEFS), unwind=26, unwind_start=8, covers=1, timeout=1500,
+                          includes=['wf.h', 'view.h', 'add_spec.h', 'query_spec.h', 'circ_spec.h', 'shapes.h'], copies=[TK], defines=dict(DEFS), unwind=(44 if name in ('ce_iter', 'che_iter') else 26), unwind_start=8, covers=1, timeout=1500,
                           inits={'tk_init': TK}, prebuild_shape=SHAPES[sh], bounds=dict(shape=sh, centre='all handles of the shape (symbolic)', laps='1..2'),
                           note='circulator %s on the constructive shape "%s": centre symbolic over the whole handle range, 1 or 2 laps; incident set = brute-force scan' % (name, sh)))
     return obs
